@@ -145,6 +145,11 @@ const VAL: u8 = 1;
 struct Faults {
     reads: HashSet<(u8, usize, usize)>,
     rewinds: HashSet<(u8, usize)>,
+    /// the io::ErrorKind a key read fault is reported with when the keys come
+    /// from a real `LineLender` over a failing reader (`ksrc: "lines"`)
+    kinds: HashMap<(usize, usize), io::ErrorKind>,
+    /// keys are the lines of a text read through sux's `LineLender`
+    lines: bool,
 }
 
 impl Faults {
@@ -157,10 +162,98 @@ impl Faults {
                     f.rewinds.insert((src, get_usize(x, "pass")));
                 } else {
                     f.reads.insert((src, get_usize(x, "pass"), get_usize(x, "idx")));
+                    let kind = match x.get("ekind").and_then(|k| k.as_str()).unwrap_or("other") {
+                        "eof" => io::ErrorKind::UnexpectedEof,
+                        "data" => io::ErrorKind::InvalidData,
+                        "denied" => io::ErrorKind::PermissionDenied,
+                        "broken" => io::ErrorKind::BrokenPipe,
+                        "timeout" => io::ErrorKind::TimedOut,
+                        _ => io::ErrorKind::Other,
+                    };
+                    if src == KEY {
+                        f.kinds.insert((get_usize(x, "pass"), get_usize(x, "idx")), kind);
+                    }
                 }
             }
         }
+        f.lines = op.get("ksrc").and_then(|k| k.as_str()) == Some("lines");
         f
+    }
+}
+
+// ---- a text of keys behind a reader that fails where the script says ----------
+struct FailState {
+    pass: usize,
+    fail_seek: bool,
+    fired: HashSet<(usize, usize)>,
+}
+
+/// In-memory text (one key per line) that `LineLender` reads; a read fault
+/// (pass, idx) makes the read that would deliver the first byte of line idx
+/// (or the end of input, for idx = n) of that pass fail with the chosen kind.
+struct FailRead {
+    data: Arc<Vec<u8>>,
+    starts: Arc<Vec<usize>>,
+    pos: usize,
+    st: Arc<Mutex<FailState>>,
+    faults: Arc<Faults>,
+}
+
+impl FailRead {
+    /// (limit of what can be served now, fault to fire when pos == limit)
+    fn limit(&self) -> (usize, Option<(usize, usize)>) {
+        let st = self.st.lock().unwrap();
+        let mut best: (usize, Option<(usize, usize)>) = (self.data.len(), None);
+        for &(src, p, i) in self.faults.reads.iter() {
+            if src == KEY && p == st.pass && !st.fired.contains(&(p, i)) && i < self.starts.len() {
+                let off = self.starts[i];
+                if off >= self.pos && (off < best.0 || (off == best.0 && best.1.is_none())) {
+                    best = (off, Some((p, i)));
+                }
+            }
+        }
+        best
+    }
+}
+
+impl io::Read for FailRead {
+    fn read(&mut self, buf: &mut [u8]) -> io::Result<usize> {
+        let avail = io::BufRead::fill_buf(self)?;
+        let k = avail.len().min(buf.len());
+        buf[..k].copy_from_slice(&avail[..k]);
+        self.pos += k;
+        Ok(k)
+    }
+}
+
+impl io::BufRead for FailRead {
+    fn fill_buf(&mut self) -> io::Result<&[u8]> {
+        let (lim, fault) = self.limit();
+        if self.pos == lim {
+            if let Some((p, i)) = fault {
+                self.st.lock().unwrap().fired.insert((p, i));
+                let kind = *self.faults.kinds.get(&(p, i)).unwrap_or(&io::ErrorKind::Other);
+                return Err(io::Error::new(kind, format!("key:{}:{}", p, i)));
+            }
+        }
+        Ok(&self.data[self.pos..lim])
+    }
+    fn consume(&mut self, amt: usize) {
+        self.pos += amt;
+    }
+}
+
+impl io::Seek for FailRead {
+    fn seek(&mut self, to: io::SeekFrom) -> io::Result<u64> {
+        let st = self.st.lock().unwrap();
+        if st.fail_seek {
+            return Err(io::Error::other(format!("key:rewind:{}", st.pass)));
+        }
+        match to {
+            io::SeekFrom::Start(x) => self.pos = x as usize,
+            _ => return Err(io::Error::other("unsupported seek")),
+        }
+        Ok(self.pos as u64)
     }
 }
 
@@ -256,6 +349,8 @@ impl Kt {
 }
 
 struct KeyLender {
+    /// `ksrc: "lines"`: the keys are lent by sux's own `LineLender`
+    lines: Option<(sux::utils::LineLender<FailRead>, Arc<Mutex<FailState>>)>,
     seq: Arc<KeySeq>,
     kt: Kt,
     faults: Arc<Faults>,
@@ -272,6 +367,22 @@ impl<'lend> Lending<'lend> for KeyLender {
 impl Lender for KeyLender {
     fn next(&mut self) -> Option<Result<&'_ HKey, io::Error>> {
         bump(&mut self.seen.lock().unwrap().kreads, self.pass);
+        if let Some((ll, _)) = &mut self.lines {
+            return match ll.next() {
+                None => None,
+                Some(Err(e)) => Some(Err(e)),
+                Some(Ok(line)) => {
+                    match &mut self.cur {
+                        HKey::Str(s) => {
+                            s.clear();
+                            s.push_str(line);
+                        }
+                        c => *c = HKey::Str(line.to_string()),
+                    }
+                    Some(Ok(&self.cur))
+                }
+            };
+        }
         let pos = self.pos;
         if self.faults.reads.contains(&(KEY, self.pass, pos)) {
             self.pos += 1;
@@ -291,6 +402,16 @@ impl RewindableIoLender<HKey> for KeyLender {
     fn rewind(mut self) -> Result<Self, io::Error> {
         self.pass += 1;
         self.seen.lock().unwrap().krewinds += 1;
+        if let Some((ll, st)) = self.lines.take() {
+            {
+                let mut g = st.lock().unwrap();
+                g.pass = self.pass;
+                g.fail_seek = self.faults.rewinds.contains(&(KEY, self.pass));
+            }
+            let ll = ll.rewind()?;
+            self.lines = Some((ll, st));
+            return Ok(self);
+        }
         if self.faults.rewinds.contains(&(KEY, self.pass)) {
             return Err(io::Error::other(format!("key:rewind:{}", self.pass)));
         }
@@ -718,7 +839,26 @@ struct Inputs {
 }
 
 fn key_lender(inp: &Inputs) -> KeyLender {
+    let lines = if inp.faults.lines {
+        // the text of the keys: LF and CRLF terminators alternate
+        let mut data = Vec::new();
+        let mut starts = Vec::new();
+        let mut s = String::new();
+        for pos in 0..inp.seq.n {
+            starts.push(data.len());
+            inp.seq.f.str_key(inp.seq.idx_at(pos), &mut s);
+            data.extend_from_slice(s.as_bytes());
+            data.extend_from_slice(if pos % 2 == 0 { b"\n" } else { b"\r\n" });
+        }
+        starts.push(data.len());
+        let st = Arc::new(Mutex::new(FailState { pass: 0, fail_seek: false, fired: HashSet::new() }));
+        let rd = FailRead { data: Arc::new(data), starts: Arc::new(starts), pos: 0, st: st.clone(), faults: inp.faults.clone() };
+        Some((sux::utils::LineLender::new(rd), st))
+    } else {
+        None
+    };
     KeyLender {
+        lines,
         seq: inp.seq.clone(),
         kt: inp.kt,
         faults: inp.faults.clone(),
@@ -873,6 +1013,38 @@ fn hangs_so_far() -> usize {
     })
 }
 
+fn with_dup_at_rank(op: &Value, kf: &KeyFn, kt: Kt) -> Value {
+    use rand::{rngs::SmallRng, Rng, SeedableRng};
+    let n = get_usize(op, "n");
+    let rank = op["dup_rank"].as_u64().unwrap() as usize;
+    let builder_seed = op.get("seed").and_then(|v| v.as_u64()).unwrap_or(0);
+    // VBuilder::build_loop: prng = SmallRng::seed_from_u64(self.seed); seed = prng.random()
+    let seed: u64 = SmallRng::seed_from_u64(builder_seed).random();
+    let wide = op["sig"].as_u64().unwrap_or(2) == 2;
+    let mut key = HKey::Usize(0);
+    let mut sigs: Vec<([u64; 2], u64)> = (0..n as u64)
+        .map(|i| {
+            kt.set(kf, i, &mut key);
+            let sig = if wide {
+                <HKey as ToSig<[u64; 2]>>::to_sig(&key, seed)
+            } else {
+                [<HKey as ToSig<[u64; 1]>>::to_sig(&key, seed)[0], 0]
+            };
+            (sig, i)
+        })
+        .collect();
+    sigs.sort();
+    let mut op2 = op.clone();
+    if n > 0 {
+        let idx = sigs[rank.min(n - 1)].1;
+        op2["n"] = json!(n + 1);
+        let mut subst = op["subst"].as_array().cloned().unwrap_or_default();
+        subst.push(json!([n, idx]));
+        op2["subst"] = Value::Array(subst);
+    }
+    op2
+}
+
 pub fn run(ep: &Value, ctx: &mut Ctx) {
     sux::verif::set_build_event(hook);
     let kf = KeyFn::parse(&ep["keyfn"]);
@@ -887,6 +1059,20 @@ pub fn run(ep: &Value, ctx: &mut Ctx) {
     ctx.emit(&hdr, "ret", json!({}));
 
     for op in ep["ops"].as_array().unwrap() {
+        // `dup_rank: r` on a build: one more position is appended to the key
+        // sequence, holding a second copy of the key whose signature (under the
+        // seed of the first construction attempt) has rank r among the
+        // signatures of the n keys, i.e. the duplicate pair sits at positions
+        // r, r+1 of the sorted shard. The executor only chooses the input: the
+        // rewritten op (n + 1 positions, one substitution) is what is executed
+        // and logged, and the specification judges it as any other duplicate.
+        let rewritten;
+        let op = if op["op"] == "build" && op.get("dup_rank").and_then(|v| v.as_u64()).is_some() {
+            rewritten = with_dup_at_rank(op, &kf, kt);
+            &rewritten
+        } else {
+            op
+        };
         ctx.begin(op);
         let name = op["op"].as_str().unwrap();
         if name == "build" {
